@@ -46,7 +46,13 @@ inductive Cond where
   | unknown
 deriving Inhabited
 
-mutual
+/-- iterate the operand of `and` / `or`, translating list items with `f` -/
+def parseSubsWith (f : PyVal → Cond) : PyVal → Option (List Cond)
+  | .list xs => some (xs.map f)
+  | .str s => some (s.toList.map fun ch => .lit (.str (String.ofList [ch])))
+  | .dict kvs => some (kvs.map fun kv => .lit (.str kv.1))
+  | _ => Option.none
+
 /-- fuel-bounded translation of a condition document (fuel = its size suffices) -/
 def parseCond : Nat → PyVal → Cond
   | 0, _ => .unknown
@@ -57,21 +63,11 @@ def parseCond : Nat → PyVal → Cond
       else match binOpsInOrder.find? (fun op => c.hasKey op.key) with
         | some op => .bin op (c.get op.key)
         | Option.none =>
-          if c.hasKey "and" then .all (parseSubs fuel (c.get "and"))
-          else if c.hasKey "or" then .any (parseSubs fuel (c.get "or"))
+          if c.hasKey "and" then .all (parseSubsWith (parseCond fuel) (c.get "and"))
+          else if c.hasKey "or" then .any (parseSubsWith (parseCond fuel) (c.get "or"))
           else if c.hasKey "not" then .not (parseCond fuel (c.get "not"))
           else .unknown
     | v => .lit v
-/-- iterate the operand of `and` / `or` -/
-def parseSubs : Nat → PyVal → Option (List Cond)
-  | fuel, .list xs => some (parseList fuel xs)
-  | _, .str s => some (s.toList.map fun ch => .lit (.str (String.ofList [ch])))
-  | _, .dict kvs => some (kvs.map fun kv => .lit (.str kv.1))
-  | _, _ => Option.none
-def parseList : Nat → List PyVal → List Cond
-  | _, [] => []
-  | fuel, x :: xs => parseCond fuel x :: parseList fuel xs
-end
 
 def condOf (c : PyVal) : Cond := parseCond (c.size + 1) c
 
